@@ -153,7 +153,13 @@ def krylov_svd(idx, rep, rule):
     a = rule.params[0][0]
     A = sym(a)
     te = TermEval(idx)
-    sym_env = {n: sym(n) for n in ("U", "V", "Sigma", "eig_vals")}
+    # the locals holding the factors are identified by their position in the returned triple (U, Sigma, V)
+    rets = [r.value for r in df.returns(fi.node) if isinstance(r.value, ast.Tuple) and len(r.value.elts) == 3 and all(isinstance(e, ast.Name) for e in r.value.elts)]
+    if not rets:
+        rep.undecided("back-substitution", rule.role, "the rule does not return a triple of locals")
+        return
+    role_of = {e.id: role for role, e in zip(("U", "Sigma", "V"), rets[-1].elts)}
+    sym_env = {n: sym(role) for n, role in role_of.items()}
     solver_calls = []
     for label, stmts in blocks(fi):
         gram = None
@@ -171,11 +177,12 @@ def krylov_svd(idx, rep, rule):
                                detail="" if kind else "gram", locs=[idx.loc(fi.module, c)])
             if not isinstance(st, ast.Assign) or len(st.targets) != 1 or not isinstance(st.targets[0], ast.Name):
                 continue
-            tgt = st.targets[0].id
+            local = st.targets[0].id
+            tgt = role_of.get(local)
             if tgt not in ("U", "V") or gram is None:
                 continue
             # which factor came out of the eigen-solver in this block?
-            direct = any(isinstance(n, ast.Subscript) and isinstance(n.value, ast.Name) and n.value.id == tgt for n in ast.walk(st.value))
+            direct = any(isinstance(n, ast.Subscript) and isinstance(n.value, ast.Name) and n.value.id == local for n in ast.walk(st.value))
             if direct:
                 continue
             t = te.eval_in(fi, st.value, sym_env)
